@@ -540,7 +540,8 @@ def respell(f_new, f_ref):
                     comb = ast.copy_location(ast.BoolOp(op=ast.And(), values=vals), n.test)
                     # ... also when neither test is a test of the reference by itself but their parts are conjuncts of one:
                     # `if A: if B: if C:` against a reference `if A and C:` becomes `if A and B and C:`
-                    if _norm(comb) in ref_tests or (_norm(b_) not in ref_tests and any(_norm(v) in ref_conjuncts for v in vals)):
+                    # ... and when neither test occurs in the reference at all (new code: the merged form is the canonical one)
+                    if _norm(comb) in ref_tests or (_norm(b_) not in ref_tests and (any(_norm(v) in ref_conjuncts for v in vals) or _norm(a_) not in ref_tests)):
                         n_[0] += 1
                         return ast.copy_location(ast.If(test=comb, body=n.body[0].body, orelse=[]), n)
                 elif isinstance(n.test, ast.BoolOp) and isinstance(n.test.op, ast.And):
@@ -1178,6 +1179,52 @@ def _copy(n):
     return n
 
 
+def normalise_function(f, fr, free_new=frozenset(), free_ref=frozenset(), rep=None, q=None):
+    """names and spellings of one function brought to those of its reference function `fr`; they help each other (a respelled
+    condition aligns, an aligned statement gives its names): a few rounds.  -> (names renamed, spellings changed)"""
+    rep = rep if rep is not None else {"renamed_functions": 0, "names": 0, "same_shape": 0, "aligned": 0, "details": {}}
+    q = q or f.name
+    renamed = False
+    tot_m = tot_k = 0
+    for _round in range(3):
+        mapping, how, locals_, others = correspondence(f, fr, free_new, free_ref)
+        m = _valid(mapping, locals_, others)
+        if m:
+            apply(f, m)
+            if not renamed:
+                rep["renamed_functions"] += 1
+                rep["same_shape" if how == "same-shape" else "aligned"] += 1
+            renamed = True
+            rep["names"] += len(m)
+            rep["details"].setdefault(q, {}).update(m)
+        k = 0
+        for _inner in range(8):         # one nesting level of if/else structure is settled per pass
+            k1 = respell(f, fr) + respell_aligned(f, fr)
+            k += k1
+            if not k1:
+                break
+        if k:
+            rep["respelled"] = rep.get("respelled", 0) + k
+            if q not in rep.setdefault("respelled_in", []):
+                rep["respelled_in"].append(q)
+        tot_m += len(m)
+        tot_k += k
+        if not m and not k:
+            break
+    return tot_m, tot_k
+
+
+def reference_function(rel, qual):
+    ref = reference_module(rel)
+    if ref is None or os.environ.get("VERIF_NO_ALPHA") == "1":
+        return None
+    r = _index(ref).get(qual)
+    return r if isinstance(r, FUNC) else None
+
+
+_EMPTY_FUNC = ast.parse("def _nothing():\n    pass\n").body[0]
+
+
 def normalise_module(tree, rel, root=None):
     """rename the locals of the functions of `tree` (and, with `root`, the private names of the package) to the reference
     spelling; -> report dict"""
@@ -1194,7 +1241,20 @@ def normalise_module(tree, rel, root=None):
     # inner functions first, so that an outer function's view of "names used in nested scopes" is final
     for q in sorted(new_defs, key=lambda k: -k.count(".")):
         f = new_defs[q]
-        if not isinstance(f, FUNC) or q not in ref_defs or not isinstance(ref_defs[q], FUNC):
+        if isinstance(f, FUNC) and (q not in ref_defs or not isinstance(ref_defs[q], FUNC)):
+            # a function the reference does not have: only the reference-independent canonical spellings (`not (a in b)` ->
+            # `a not in b`, accumulation loop of a private loop variable -> comprehension)
+            k = 0
+            for _inner in range(4):
+                k1 = respell(f, _EMPTY_FUNC)
+                k += k1
+                if not k1:
+                    break
+            if k:
+                rep["respelled"] = rep.get("respelled", 0) + k
+                rep.setdefault("respelled_in", []).append(q)
+            continue
+        if not isinstance(f, FUNC):
             continue
         rep["functions"] += 1
         fr = ref_defs[q]
@@ -1206,29 +1266,5 @@ def normalise_module(tree, rel, root=None):
             skip0 = ps[:1] if ps and ps[0] in ("self", "cls") else []
             free_new = frozenset(p_ for p_ in ps if p_ not in skip0 and p_ not in kws)
             free_ref = frozenset(a.arg for a in fr.args.posonlyargs + fr.args.args if a.arg not in ("self", "cls"))
-        # names and spellings help each other (a respelled condition aligns, an aligned statement gives its names): a few rounds
-        renamed = False
-        for _round in range(3):
-            mapping, how, locals_, others = correspondence(f, fr, free_new, free_ref)
-            m = _valid(mapping, locals_, others)
-            if m:
-                apply(f, m)
-                if not renamed:
-                    rep["renamed_functions"] += 1
-                    rep["same_shape" if how == "same-shape" else "aligned"] += 1
-                renamed = True
-                rep["names"] += len(m)
-                rep["details"].setdefault(q, {}).update(m)
-            k = 0
-            for _inner in range(8):         # one nesting level of if/else structure is settled per pass
-                k1 = respell(f, fr) + respell_aligned(f, fr)
-                k += k1
-                if not k1:
-                    break
-            if k:
-                rep["respelled"] = rep.get("respelled", 0) + k
-                if q not in rep.setdefault("respelled_in", []):
-                    rep["respelled_in"].append(q)
-            if not m and not k:
-                break
+        normalise_function(f, fr, free_new, free_ref, rep, q)
     return rep
